@@ -57,14 +57,18 @@ class C16(Prop):
     ]
     assumptions = ["segment ids and sizes are non-negative integers",
                    "flow.size is a multiple of the MSS; constant path delay >= 0; initial rtt_estimate > 0; initial cwnd >= MSS",
-                   "drop patterns are finite sets of transmission indices per direction"]
+                   "drop patterns are finite sets of transmission indices per direction",
+                   "lossfree_no_retransmit is proved (C16_lossfree_no_retransmit) with 'the round-trip time stays below the current RTO' stated on the "
+                   "configuration: no drops, delay d < initial rtt_estimate and rtt_estimate != 2d (then every RTO in force exceeds 2d; at "
+                   "rtt_estimate = 2d the estimator reaches RTO = RTT exactly and the timer wins the same-instant race)"]
     partial = [
-        "reliable_delivery (finitely many drops => the run ends with the sink holding [0,size) and last_ack = size) is a liveness claim: the theorems "
-        "carry the safety half (never raises; last_ack <= sink prefix <= next_seq; last_ack monotone; an unfinished transfer always has an armed timer or "
-        "a runnable sender, so the simulation cannot end early); that the pending work terminates is tested (runs to quiescence on random drop "
-        "patterns), not proved",
-        "lossfree_no_retransmit (no drops and 2*delay < the RTO in force at every send => no segment is sent twice) is checked by the monitor on "
-        "every loss-free run and by the loop correspondence; proved is only that a retransmission needs a timer expiry or a third duplicate ACK",
+        "reliable_delivery (finitely many drops => the run ends with the sink holding [0,size) and last_ack = size) is a liveness claim. Proved: the "
+        "safety half (never raises; last_ack <= sink prefix <= next_seq; last_ack monotone; an unfinished transfer always has an armed timer event or "
+        "a runnable sender on the agenda; a quiescent loop is complete), C16_work_bounded_by_transmissions (every agenda step decreases a potential: "
+        "steps <= 3 + size + 10 * data transmissions, so only retransmitting can keep the loop busy) and C16_lossfree_terminates (the loop without "
+        "drops ends quiescent and complete within 3 + 11*size steps). NOT proved: that with a non-empty finite drop set the number of retransmissions "
+        "is bounded (needs real-time reasoning about RTO doubling against the delivery of the first unacknowledged segment); that part is tested by "
+        "runs to quiescence on random drop patterns",
     ]
 
     # ---- generation -------------------------------------------------------------------------
